@@ -30,9 +30,20 @@ func init() {
 	reg("R-VISIBLE", "For each structure family, the write set of the mutators and the read set of the readers (transitive effect summaries) intersect: otherwise no operation can observe an earlier one of its own transaction and per-operation results cannot equal a serial execution.", ruleVisible)
 	reg("R-BACKUP", "The directory copy of Backup is the body of a function passed to db.View/Update on the same DB, its source is that DB's Options.Dir, and the body writes no shared state.", ruleBackup)
 	reg("R-GLOBALS", "No package-level variable of the module is written by a function reachable from an API entry point; the library contains no go statement.", ruleGlobals)
+	reg("R-LOCKMAP", "RWMutex operations reached through a Tx: Lock/Unlock only under tx.writable, RLock/RUnlock only under !tx.writable; Tx.lock and Tx.unlock perform a lock operation on every path.", ruleLockMap)
+	reg("R-LOCKCTX", "Every access to a DB field other than opt and mu, in the cones of the exported DB and Tx methods, executes with the database lock held on all paths (lock context inferred from acquire/release events and inherited along call edges; Tx methods assume an open transaction).", ruleLockCtx)
+	reg("R-LOCKCTX-MERGE", "R-LOCKCTX restricted to the cone of DB.Merge.", ruleLockCtxMerge)
+	reg("R-TXPAIR", "Begin releases the lock on its error exits and tests db.closed under the lock; Commit/Rollback unlock exactly once on success and never return an error after unlocking; every successful Begin is followed on all paths by Commit or Rollback, and a failed or unchecked Commit by Rollback.", ruleTxPairing)
+	reg("R-COMMIT-EMPTY", "In Tx.Commit every instruction that changes shared state or files is dominated by len(pendingWrites) != 0, so a read-only transaction (shared lock) changes nothing when it commits.", ruleCommitNoopWhenEmpty)
 }
 
 var properties = []Property{
+	{ID: "C14", Rules: []string{"R-LOCKMAP", "R-LOCKCTX", "R-RO", "R-PUT", "R-COMMIT-EMPTY", "R-GLOBALS", "R-TXPAIR"},
+		Explain: "Decides the lock discipline that race freedom and snapshot reads rest on: writers take the exclusive lock, every access to database state holds the lock, read paths write nothing shared, only writable transactions can enqueue and an empty commit changes nothing, no process-global mutable state, no goroutines, Begin/Commit/Rollback pair up on all paths.",
+		NotCov:  "linearizability of observed histories, races on references a caller keeps after the transaction (ZMembers returns the live dictionary), scheduling-dependent behaviour."},
+	{ID: "C17", Rules: []string{"R-LOCKCTX-MERGE"},
+		Explain: "Decides whether every read/write of database state in the cone of DB.Merge holds the database lock.",
+		NotCov:  "the effect of a race on results; observed race reports."},
 	{ID: "C18", Rules: []string{"R-BACKUP"},
 		Explain: "Decides that the backup copy runs with the database lock held for its whole duration (inside View on the same DB), copies the whole Options.Dir, and writes no shared state.",
 		NotCov:  "that the copy opens and shows the same state (depends on C09/C10 and on CopyDir), interaction with an unlocked Merge (C17)."},
